@@ -1,12 +1,16 @@
 """C19 — estimateMemory bounds the memory requested while loading and convolving.
 
 Proof : PsV/Props/C19.lean (C19_peak_le_estimate, C19_peak_read_le_estimate, C19_live_after_convolve,
-        C19_loadable_consistent, C19_convolvable_iff, C19_peak_le_estimate_loadable, decided witnesses),
+        C19_loadable_consistent, C19_convolvable_iff, C19_peak_le_estimate_loadable, decided witnesses;
+        deepened: C19_peak_exact, C19_peak_aux_order, C19_lifecycle (with the destructor's call sites),
+        C19_peak_cost_le_estimate / _aligned_ / _arena_ (arenas that use more than requested), C19_estimate_mono,
+        C19_estimate_le_peak_plus, C19_tight_family, C19_relative_slack_vanishes),
         stated about PsV/Generated/C19.lean, which tools/gen_c19.py regenerates from the working tree on every run
         (size terms of estimateMemory, allocator call sites of read_fits_core and convolve in source order with the
         condition of the second block of a quoted aux value, the reader's shape validation, constants).
 Tie   : harness/c19_harness.cpp loads generated files into splinetable<CountingAlloc> and convolves them; per case the
-        real estimateMemory value, the measured peak / live bytes and the exact sequence of allocator requests (sizes)
+        real estimateMemory value, the measured peak / live bytes, the peak with blocks rounded up to 16 bytes, the bytes
+        live after destruction and the exact sequence of allocator requests (sizes) of constructor, convolve and destructor
         must EQUAL what the Lean definitions compute from the file description (exact line equality).  Files whose
         shape the generated validation predicate refuses must be refused by the library, and vice versa.
 Oracle: measured peak <= real estimateMemory value (independent of the model)."""
@@ -164,7 +168,8 @@ def run(ctx):
     ctx.coverage["tables_with_bytes_live_after_destruction"] = leaks
     if worst: ctx.coverage["smallest_slack"] = {"estimate_minus_peak": worst[0], "ndim": worst[1], "naux": worst[2], "kernel_knots": worst[3], "estimate": worst[4], "peak": worst[5]}
     ctx.assumptions += [
-        "the property counts bytes REQUESTED from the allocator (n*sizeof(T)); alignment padding and per-block bookkeeping of a concrete arena are not part of it (estimateMemory's final +1..2 KB is the only allowance)",
+        "the property counts bytes REQUESTED from the allocator (n*sizeof(T)); alignment padding and per-block bookkeeping of a concrete arena are not part of it; what the estimate leaves for them is 40 bytes per auxiliary card and >= 1025 bytes in total (Lean: C19_peak_cost_le_estimate; enough for blocks aligned to <= 16 bytes or 8-byte headers, not for 16-byte headers: C19_arena_overhead_can_exceed)",
+        "the destructor is modelled for a table with ndim >= 1 whose extents and periods arrays exist (true of every loaded table: the translator checks that read_fits_core allocates both unconditionally)",
         "temporaries of convolve (rho, trafo, the new coefficient buffer, saved knots) are new[]/unique_ptr memory, not allocator memory, and are outside the property",
         "an auxiliary key and its raw value come from one 80-column card (strlen(key)+strlen(value) <= 80) and the stored string is not longer than the raw value, both checked on every generated file; FLEN_KEYWORD/FLEN_VALUE alone would not suffice",
         "the coefficient image is consistent with the knot count: no longer an assumption - read_fits_core refuses every other file (Lean: C19_loadable_consistent about the generated predicate; tie: profile I)",
